@@ -63,6 +63,41 @@ type zooLower struct {
 	a string
 	A string
 }
+// promotion through several levels of embedding, by value and by pointer
+type zooLeaf struct {
+	A string
+	B int
+}
+type zooMidP struct{ *zooLeaf }       // hop: pointer
+type zooMidV struct{ zooLeaf }        // hop: value
+type zooTopVP struct {                // value, then pointer
+	zooMidP
+	C bool
+}
+type zooTopPP struct { // pointer, then pointer
+	*zooMidP
+	C bool
+}
+type zooTopPV struct { // pointer, then value
+	*zooMidV
+	C bool
+}
+type zooTop3 struct { // three hops: pointer, pointer, pointer
+	*zooTopPP
+	D string
+}
+
+func c06Embeddings() []zooItem {
+	leaf := &zooLeaf{"x", 1}
+	return []zooItem{
+		{"embedding value>pointer(nil)", zooTopVP{}}, {"embedding value>pointer(set)", zooTopVP{zooMidP{leaf}, true}}, {"*embedding value>pointer(nil)", &zooTopVP{}},
+		{"embedding pointer(nil)>pointer", zooTopPP{}}, {"embedding pointer(set)>pointer(nil)", zooTopPP{&zooMidP{}, true}}, {"embedding pointer(set)>pointer(set)", zooTopPP{&zooMidP{leaf}, true}},
+		{"embedding pointer(nil)>value", zooTopPV{}}, {"embedding pointer(set)>value", zooTopPV{&zooMidV{*leaf}, true}},
+		{"embedding 3 hops all nil", zooTop3{}}, {"embedding 3 hops, nil at hop 2", zooTop3{&zooTopPP{}, "d"}}, {"embedding 3 hops, nil at hop 3", zooTop3{&zooTopPP{&zooMidP{}, true}, "d"}}, {"embedding 3 hops, all set", zooTop3{&zooTopPP{&zooMidP{leaf}, true}, "d"}},
+		{"map of embedding with nil hop", map[string]any{"a": zooTopPP{&zooMidP{}, true}, "n": zooTopVP{}, "p": &zooTop3{&zooTopPP{}, "d"}}},
+	}
+}
+
 type zooStringer struct{ s *string }
 
 func (z zooStringer) String() string { return *z.s } // panics when s is nil (fmt recovers it)
@@ -88,7 +123,7 @@ func c06Zoo() []zooItem {
 	var nilIface any
 	var nilErr *zooErr
 	big := strings.Repeat("a", 1<<16)
-	return append(c06HandZoo(nilIface, nilErr, pi, ppi, psv, st, pst, ppst, big), c06PtrChains()...)
+	return append(append(c06HandZoo(nilIface, nilErr, pi, ppi, psv, st, pst, ppst, big), c06PtrChains()...), c06Embeddings()...)
 }
 
 func c06HandZoo(nilIface any, nilErr *zooErr, pi *int, ppi **int, psv *string, st zooStruct, pst *zooStruct, ppst **zooStruct, big string) []zooItem {
